@@ -168,7 +168,7 @@ func runC18(c *Ctx) {
 				if st, ok := in.(*ssa.Store); ok {
 					if fa, ok := st.Addr.(*ssa.FieldAddr); ok {
 						o, s := ownerOfFieldBase(fa.X.Type())
-						if o == "p2p.peerInfo" && s.Field(fa.Field).Name() == "score" {
+						if o == "p2p.peerInfo" && fieldNameOf(s.Field(fa.Field)) == "score" {
 							t := ff.Term(st.Val)
 							// stored value may be the φ(new, score): look through
 							if strings.Contains(t.String(), ".score + p2)") {
@@ -205,7 +205,7 @@ func runC18(c *Ctx) {
 				case *ssa.Store:
 					if fa, ok := x.Addr.(*ssa.FieldAddr); ok {
 						o, s := ownerOfFieldBase(fa.X.Type())
-						if o == "p2p.peerInfo" && s.Field(fa.Field).Name() == "expiration" {
+						if o == "p2p.peerInfo" && fieldNameOf(s.Field(fa.Field)) == "expiration" {
 							checkExpiry(x, ff.Term(x.Val), b)
 						}
 					}
@@ -231,7 +231,7 @@ func runC18(c *Ctx) {
 					if st, ok := in.(*ssa.Store); ok {
 						if fa, ok := st.Addr.(*ssa.FieldAddr); ok {
 							o, s := ownerOfFieldBase(fa.X.Type())
-							return o == "p2p.peerInfo" && s.Field(fa.Field).Name() == "expiration"
+							return o == "p2p.peerInfo" && fieldNameOf(s.Field(fa.Field)) == "expiration"
 						}
 					}
 					return false
